@@ -74,6 +74,9 @@ class Check:
                 self.fail_inconclusive('cannot build the engine')
 
     def cleanup(self):
+        if os.environ.get('VERIF_KEEP'):
+            log('scratch kept at', self.scratch)
+            return
         shutil.rmtree(self.scratch, ignore_errors=True)
 
     # ------------------------------------------------------------ engine
@@ -83,6 +86,9 @@ class Check:
         self.engine_runs += 1
         if timeout_ms is None:
             timeout_ms = 60000 if self.tier == 'quick' else 300000
+        flt = os.environ.get('VERIF_JOBS')
+        if flt:
+            jobs = [j for j in jobs if re.search(flt, j['name'])]
         for j in jobs:
             j.setdefault('opt', {}).setdefault('max_wall_s', 150 if self.tier == 'quick' else 3600)
         spec = {'dir': dir, 'patterns': patterns, 'overlay': overlay, 'jobs': jobs, 'workers': workers,
@@ -106,6 +112,9 @@ class Check:
         self.load_s += out.get('load_s', 0)
         if out.get('error'):
             self.inconclusive.append('engine: ' + out['error'])
+        if os.environ.get('VERIF_VERBOSE'):
+            for jr in out.get('jobs') or []:
+                log('  %-40s paths=%-7d oblig=%-8d viol=%-3d q=%-7d solver=%.1fs wall=%.1fs %s %s' % (jr['name'], jr['paths'], jr['obligations'], jr['n_violations'], jr['solver_queries'], jr['solver_time_s'], jr['wall_s'], 'TRUNC' if jr.get('truncated') else '', list((jr.get('unsupported') or {}).items())[:2]))
         byname = {j['name']: j for j in jobs}
         for jr in out.get('jobs') or []:
             c = dict(ctx or {})
@@ -464,3 +473,52 @@ def make_scratch_module(check, name='mod'):
     open(os.path.join(d, 'go.mod'), 'w').write('module scratch\n' + reqs + '\nrequire %s v0.0.0\nreplace %s => %s\n' % (MODPATH, MODPATH, REPO))
     shutil.copy(os.path.join(REPO, 'go.sum'), os.path.join(d, 'go.sum'))
     return d
+
+
+def build_parquetgen(check):
+    out = os.path.join(check.scratch, 'parquetgen')
+    if os.path.exists(out):
+        return out
+    rc, txt = sh(['go', 'build', '-o', out, './cmd/parquetgen'], cwd=REPO)
+    if rc != 0:
+        check.inconclusive.append('cannot build parquetgen from the working tree: ' + txt[-400:])
+        return None
+    return out
+
+
+def gen_program(check, mod, prog, templates, pgen, determinism=False, pkgname=None):
+    """Write the struct file, run the fresh parquetgen, add harness files.
+    Returns dict(pkg, dir, ok, msg)."""
+    name = pkgname or prog.name
+    d = os.path.join(mod, name)
+    os.makedirs(d, exist_ok=True)
+    open(os.path.join(d, 's.go'), 'w').write(prog.struct_source(name))
+    info = {'pkg': 'scratch/' + name, 'dir': d, 'name': name, 'ok': True, 'msg': '', 'canon': prog.canon()}
+    try:
+        p = subprocess.run([pgen, '-input', 's.go', '-type', prog.root, '-package', name, '-output', 'parquet.go'], cwd=d, env=GOENV,
+                           stdout=subprocess.PIPE, stderr=subprocess.STDOUT, text=True, timeout=60)
+        rc, out = p.returncode, p.stdout
+    except subprocess.TimeoutExpired:
+        rc, out = 124, 'parquetgen timed out'
+    if rc != 0 or not os.path.exists(os.path.join(d, 'parquet.go')):
+        info.update(ok=False, msg='gen-fail: ' + out.strip()[-300:])
+        return info
+    if determinism:
+        first = open(os.path.join(d, 'parquet.go')).read()
+        subprocess.run([pgen, '-input', 's.go', '-type', prog.root, '-package', name, '-output', 'parquet2.go.txt'], cwd=d, env=GOENV,
+                       stdout=subprocess.PIPE, stderr=subprocess.STDOUT, text=True, timeout=60)
+        second = open(os.path.join(d, 'parquet2.go.txt')).read() if os.path.exists(os.path.join(d, 'parquet2.go.txt')) else ''
+        if first != second:
+            info.update(ok=False, msg='nondeterministic: two runs of parquetgen differ')
+            return info
+    open(os.path.join(d, 'zz_verif_h0.go'), 'w').write(prog.harness_source(name))
+    for i, t in enumerate(templates):
+        txt = open(os.path.join(HARNESS, t)).read().replace('PKGNAME', name)
+        open(os.path.join(d, 'zz_verif_t%d.go' % i), 'w').write(txt)
+    shutil.copy(intr_sym(name, check.scratch), os.path.join(d, 'zz_verif_i.go'))
+    return info
+
+
+def scratch_ctx(info, native_templates=()):
+    return {'replay': 'scratch_pkg', 'pkgdir': info['dir'], 'pkgname': info['name'],
+            'native_files': [os.path.join(HARNESS, t) for t in native_templates], 'program': info.get('canon')}
